@@ -75,6 +75,18 @@ Theorem C13_ring_no_deadlock : forall P, 3 <= pn P -> 1 <= pR P ->
   exists l st', is_progress l = true /\ step P st l = Some st'.
 Proof. exact no_deadlock. Qed.
 
+(* --- ring_terminates: a measure that every non-wait step strictly decreases and no step increases -------------- *)
+(* With C13_ring_no_deadlock: as long as the state is not final some such step is enabled, so under weak fairness
+   every run reaches the final state (io_stop returns), after at most mu (init P) non-wait steps. *)
+Theorem C13_ring_measure : forall P, 3 <= pn P -> 1 <= pR P ->
+  forall st l st', RingInv P st -> step P st l = Some st' ->
+  mu P st' <= mu P st /\ (is_progress l = true -> mu P st' < mu P st).
+Proof. exact mu_step. Qed.
+Theorem C13_ring_measure_init : forall P, 3 <= pn P -> 1 <= pR P ->
+  mu P (init P) <= (length (poss P) + 1) * (pR P + pW P + 3) + 3 +
+                   pR P * (2 * (length (poss P) + pn P) + 2) + pW P * (2 * length (poss P) + 1).
+Proof. exact mu_init_bound. Qed.
+
 (* --- IO_MIN = 3 is necessary: with n = 2 a reachable state has every thread blocked for ever ------------------ *)
 Theorem C13_ring_n2_deadlock :
   reachable P2 n2_dead /\
@@ -89,6 +101,7 @@ Print Assumptions C13_ring_ownership_writer.
 Print Assumptions C13_ring_order_complete.
 Print Assumptions C13_ring_order_writer_final.
 Print Assumptions C13_ring_no_deadlock.
+Print Assumptions C13_ring_measure.
 Print Assumptions C13_ring_n2_deadlock.
 
 (* non-vacuity: a concrete ring (n = 3, two readers, one writer, positions 0 and 2 enabled below bmax = 3) runs from
